@@ -183,6 +183,11 @@ class Builder(ABC):
             # the trajectory builder calculate it.
             if self.starting_mass is None:
                 self.starting_mass = self.calc_starting_mass()
+            else:
+                # The starting mass is given, but the trip fuel estimate is
+                # still needed (first point's fuel load, mass residual): it
+                # is set as a side effect of the starting mass calculation.
+                self.calc_starting_mass()
             assert self.starting_mass is not None
 
             # Do the simulation...
